@@ -100,7 +100,7 @@ func init() { register("C17", checkC17) }
 func checkC17(tier string) *Report {
 	rep := NewReport("C17", tier, "model_checking")
 	full := tier == "thorough"
-	rep.Rule = "(a) every distinct state reachable by <=D operations over pauses, action pauses, parameter changes, transfers on all routes, refused transfers and imported near-maximal statistics: round trip + behavioural equivalence under probes; (b) genesis documents from a grammar (one component varied at a time and amounts × counts) and all single-point JSON mutations of an exported genesis. Non-trivial = states with non-default orbiter state + documents accepted by validation"
+	rep.Rule = "(a) every distinct state reachable by <=D operations over pauses, action pauses, parameter changes, transfers on all routes, refused transfers and imported near-maximal statistics: round trip + behavioural equivalence under probes; (b) genesis documents from a grammar (one component varied at a time and amounts × counts) and all single-point JSON mutations of an exported genesis. (c) chain level: at 4 (thorough 5, two generations) points of a real block history the WHOLE application state is exported (ExportAppStateAndValidators), a fresh chain is initialised from it with InitChain, the orbiter genesis must re-export byte-identically and the same continuation of real blocks (transfers to paused/unpaused destinations, accumulating transfers, size probes) must give the same tx codes, acknowledgements, refunds and final orbiter export on both. Non-trivial = states with non-default orbiter state + documents accepted by validation"
 	rep.Assumptions = []string{
 		"InitGenesis is run on a branch whose orbiter store was emptied (a fresh chain's orbiter store is empty); the other modules' stores are those of the fixture",
 		"module-level JSON entry points (AppModule.ExportGenesis / ValidateGenesis / InitGenesis) are used for the round trip and the JSON mutations; the grammar documents are Go structs validated with GenesisState.Validate and initialised with Keeper.InitGenesis",
@@ -190,6 +190,11 @@ func checkC17(tier string) *Report {
 	c17Documents(rep, worlds, full)
 	c17JSONDocuments(rep, worlds, full)
 	c17JSONMutations(rep, worlds[0])
+	// (c) chain level: whole-application export -> InitChain of a fresh chain -> same continuation on both (loop.go)
+	if err := loopRestartCheck(rep, full); err != nil {
+		rep.HarnessError("chain restart: %v", err)
+	}
+	rep.Guard(rep.Outcomes["chain-restart-reexport-identical"] >= 3 && rep.Outcomes["chain-restart-continuation-identical"] >= 3, "chain restart phase vacuous: %v", rep.Outcomes)
 	rep.Guard(rep.Outcomes["state-round-trips"] > 50, "too few states round-tripped: %v", rep.Outcomes)
 	rep.Guard(rep.Outcomes["doc-accepted-and-initialised"] > 100 && rep.Outcomes["doc-rejected-by-validation"] > 100, "document grammar vacuous: %v", rep.Outcomes)
 	return rep
@@ -444,14 +449,14 @@ func (w *World) observables(ctx sdk.Context) string {
 	var b strings.Builder
 	m, err := w.pauseSetsFromQueries(ctx)
 	fmt.Fprintf(&b, "pause=%s err=%v;", m, err)
-	for p := range supportedProtocols {
+	for _, p := range sortedKeys(supportedProtocols) {
 		v, err := w.QIsProtocolPaused(ctx, p)
 		fmt.Fprintf(&b, "isP(%s)=%v,%v;", p, v, err)
 	}
 	as, err := w.QPausedActions(ctx)
 	sort.Strings(as)
 	fmt.Fprintf(&b, "actions=%v err=%v;", as, err)
-	for a := range supportedActions {
+	for _, a := range sortedKeys(supportedActions) {
 		v, err := w.QIsActionPaused(ctx, a)
 		fmt.Fprintf(&b, "isA(%s)=%v,%v;", a, v, err)
 	}
@@ -586,4 +591,13 @@ func c17JSONDocuments(rep *Report, worlds []*World, full bool) {
 		rep.Outcome("json-doc-accepted-and-initialised")
 	})
 	rep.Guard(rep.Outcomes["json-doc-accepted-and-initialised"] > 10 && rep.Outcomes["json-doc-rejected"] > 100, "JSON genesis family vacuous: %v", rep.Outcomes)
+}
+
+func sortedKeys[V any](m map[string]V) []string {
+	ks := make([]string, 0, len(m))
+	for k := range m {
+		ks = append(ks, k)
+	}
+	sort.Strings(ks)
+	return ks
 }
